@@ -57,6 +57,9 @@ CLAIMED = {
  "C17": ("exploration", "at-least-once stream transport simulation: the same multiset of hashes (boundary catalogue) is delivered to 2-4 HyperLogLog nodes in different orders and multiplicities through add_hashed and add (Identity / Sip / masked hashers); registers compared with the rule of the statement after every add",
          "Permutation and repetition of adds are what a reordering, duplicating transport produces; all nodes must agree and every touched register must equal the statement's rule (max over addressed hashes of the first-set-bit position), add must equal add_hashed(hash_one), reconstruction from registers must be equal.",
          "All 15 precisions, <= 600 items per run."),
+ "C19": ("exploration", "restart / fork simulation for all nine structures: seeded prefix (with failed inserts), clear(), continuation applied in lock-step to a fresh instance whose injected RNG stream is aligned to the cleared instance's position; clones taken at a seeded instant, mutated in both directions",
+         "clear() is a restart that keeps only the configuration and clone() a fork at an arbitrary instant; the instant and (cuckoo, reservoir) the alignment of the RNG stream are the simulator's choices. After clear() and after every continuation step both instances must give identical operation results and identical answers on the structure's full observer set; is_empty() is compared with the number of successful additions.",
+         "Observer sets: filters query over <= 32 keys + len + is_empty; CMS query_point; HLL registers/count; T-Digest n_centroids, 33 quantiles, 33 cdf values, aggregates (bit-exact); reservoir contents; LossyCounter n and three sorted queries; CMSHeap sorted iter."),
 }
 
 PENDING = {}
